@@ -33,9 +33,15 @@ func pushScenario(t *rapid.T, restartFocus bool) sim.Scenario {
 	}
 	if rapid.IntRange(0, 2).Draw(t, "pins") == 0 {
 		sc.Cfg.Pins = append(sc.Cfg.Pins, sim.Pin{
-			Site:  pick(t, "site", []string{"srv.push.lock", "srv.waitcb.lock", "srv.read.recv", "srv.stop.lock", "srv.deliver.lock", "srv.barrier.wait"}),
+			Site:  pick(t, "site", []string{"rsp.wait.woke", "rsp.wait.woke", "srv.push.lock", "srv.waitcb.lock", "srv.read.recv", "srv.stop.lock", "srv.deliver.lock", "srv.barrier.wait"}),
 			Delay: pick(t, "delay", []int{1, 50, 9000, 200000}),
 		})
+	}
+	slowWaiter := false
+	if sc.Cfg.AllowPush && rapid.IntRange(0, 3).Draw(t, "slowwaiter") == 0 {
+		// a Callback that has been handed its outcome takes its time to act on it
+		slowWaiter = true
+		sc.Cfg.Pins = append(sc.Cfg.Pins, sim.Pin{Site: "rsp.wait.woke", Delay: 200000})
 	}
 	if rapid.IntRange(0, 5).Draw(t, "sendfault") == 0 {
 		// the channel refuses one of the first records the server sends
@@ -111,6 +117,13 @@ func pushScenario(t *rapid.T, restartFocus bool) sim.Scenario {
 			if rapid.IntRange(0, 3).Draw(t, "lead") == 0 {
 				st.ID = "lead" // the reply travels in a batch behind a call of the peer's own
 			}
+			if st.Push == "push" && st.K != 77 && slowWaiter && rapid.IntRange(0, 2).Draw(t, "racecancel") != 0 {
+				// ... and the caller gives up while the reply is on its last yards:
+				// the waiter is held (pin) between receiving it and acting on it
+				st.Burst = true
+				sc.Steps = append(sc.Steps, st)
+				st = sim.Step{Op: "pushcancel", K: st.K, After: pick(t, "rcafter", []int{60000, 100000, 20000})}
+			}
 		case roll < 72:
 			// the peer's own call, with an id that collides numerically with callback ids
 			nextK++
@@ -119,6 +132,16 @@ func pushScenario(t *rapid.T, restartFocus bool) sim.Scenario {
 				pending = append(pending, nextK)
 			}
 			st = sim.Step{Op: "send", Rec: engine.Bytes(fmt.Sprintf(`{"jsonrpc":"2.0","id":%d,"method":%q,"params":{"k":%d}}`, rapid.IntRange(1, 4).Draw(t, "collide"), method, nextK))}
+			if method == "ret" && rapid.IntRange(0, 3).Draw(t, "malformed") == 0 {
+				// the same, malformed: it is answered with an error under its id and
+				// is still no reply to the callback that happens to bear that id
+				id := rapid.IntRange(1, 4).Draw(t, "collide2")
+				st.Rec = engine.Bytes(pick(t, "badreq", []string{
+					fmt.Sprintf(`{"jsonrpc":"2.0","id":%d,"method":"ret","params":5}`, id),
+					fmt.Sprintf(`{"id":%d,"method":"ret","params":{"k":%d}}`, id, nextK),
+					fmt.Sprintf(`{"jsonrpc":"2.0","id":%d,"method":"ret","params":{"k":%d},"bogus":1}`, id, nextK),
+				}))
+			}
 		case roll < 80 && len(pending) > 0:
 			j := rapid.IntRange(0, len(pending)-1).Draw(t, "which")
 			st = sim.Step{Op: "release", K: pending[j], Out: "ok"}
@@ -126,7 +149,7 @@ func pushScenario(t *rapid.T, restartFocus bool) sim.Scenario {
 		case roll < 86:
 			st = sim.Step{Op: "advance", D: pick(t, "adv", []int{500, 1200, 3500})}
 		case roll < 90 && pushes > 0:
-			st = sim.Step{Op: "pushcancel", K: rapid.IntRange(1, pushes).Draw(t, "pc")}
+			st = sim.Step{Op: "pushcancel", K: rapid.IntRange(1, pushes).Draw(t, "pc"), After: pick(t, "pcafter", []int{0, 0, 8000, 30000, 100000})}
 		case roll < 94 && !stopped:
 			stopped = true
 			st = sim.Step{Op: pick(t, "stopkind", []string{"stop", "peerclose"})}
